@@ -107,7 +107,7 @@ def judge_all(ctx, cases, results):
     from osaca.parser import BaseParser
     flagged = {}
     cov = ctx.coverage.setdefault("reports", {"run": 0, "raised": 0, "kinds": {}, "max_port_total": 0.0, "totals>=10": 0, "totals>=100": 0,
-                                              "with_unknown": 0, "lt_unknown_only_lines": 0, "no_arch": 0, "length_warning": 0,
+                                              "with_unknown": 0, "lt_unknown_only_lines": 0, "tp_unknown_only_lines": 0, "no_arch": 0, "length_warning": 0,
                                               "lcd_timeout": 0, "lcds>=2": 0, "cp_cell!=latency": 0, "digits_seen": {},
                                               "blank_cp_cell_with_nonzero_yaml_LatencyCP": 0, "fallback_to_other_isa": 0})
     det_bad = []
@@ -138,6 +138,7 @@ def judge_all(ctx, cases, results):
         cov["totals>=100"] += any(v >= 100 for v in tot) and t["summary"] is not None
         cov["with_unknown"] += any("tp_unknown" in k["flags"] for k in y["kernel"])
         cov["lt_unknown_only_lines"] += sum(1 for k in y["kernel"] if "lt_unknown" in k["flags"] and "tp_unknown" not in k["flags"])
+        cov["tp_unknown_only_lines"] += sum(1 for k in y["kernel"] if "tp_unknown" in k["flags"] and "lt_unknown" not in k["flags"] and k.get("instr"))
         cov["no_arch"] += c.get("arch") is None
         cov["length_warning"] += t["length_warning"]
         cov["lcd_timeout"] += t["lcd_warning"]
